@@ -166,7 +166,67 @@ theorem gen_name_tables :
     Gen.lexTables.identDigitChars = b!"abcdefghijklmnopqrstuvwxyzABCDEFGHIJKLMNOPQRSTUVWXYZ_0123456789" ∧
     Gen.lexTables.keywords = [b!"in", b!"and", b!"or", b!"not", b!"true", b!"false", b!"as", b!"export"] := by decide
 
+/-- **`cycle` walks its arguments round-robin**: with the node's counter at `idx` (0 in a fresh
+    render), a `cycle` over the literal texts `lits` prints `lits[idx mod n]` (escaped like any
+    printed text while autoescaping is on) and leaves the counter at `idx + 1`, whatever `idx` is:
+    after n steps it is back at the first argument. -/
+theorem cycle_round_robin (fuel id : Nat) (lits : List Bytes) (p : TokPos) (σ : ES) (fr : Frame) (rest : List Frame)
+    (hσ : σ.frames = fr :: rest) (hn : lits ≠ []) :
+    (execNode T cfg g (fuel + 2) (.tagCycle id (lits.map fun s => Expr.str s p) [] false)).run σ =
+      .ok () { σ with
+        cycle := (σ.cycle.filter (·.1 != id)) ++ [(id, (σ.cycle.lookup id).getD 0 + 1)],
+        out := σ.out ++ printed false fr.autoescape ⟨.str (lits.getD ((σ.cycle.lookup id).getD 0 % lits.length) []), false⟩ } := by
+  obtain ⟨frames, a, b, c, d, e, f⟩ := σ
+  simp only at hσ
+  subst hσ
+  have hlen : (lits.length == 0) = false := by cases lits <;> simp at hn ⊢
+  have hlt : (List.lookup id c).getD 0 % lits.length < lits.length := Nat.mod_lt _ (by cases lits <;> simp at hn ⊢)
+  have hget : (lits.map fun s => Expr.str s p).getD ((List.lookup id c).getD 0 % lits.length) default =
+      Expr.str (lits.getD ((List.lookup id c).getD 0 % lits.length) []) p := by
+    rw [List.getD_eq_getElem?_getD, List.getD_eq_getElem?_getD, List.getElem?_map, List.getElem?_eq_getElem hlt]
+    rfl
+  simp only [execNode, List.length_map, hlen, Bool.false_eq_true, if_false, EStateM.run, bind, EStateM.bind, get, getThe,
+    MonadStateOf.get, EStateM.get, modify, modifyGet, MonadStateOf.modifyGet, EStateM.modifyGet, hget, eval, pure, EStateM.pure,
+    mkV, filterApplied, cur, write, ne_eq, not_true_eq_false, Bool.not_false, if_true]
+
+/-- **`ifchanged` prints only when its content differs from the last time it printed**: if the
+    body renders (into a buffer of its own) to `out`, the tag writes `out` and remembers it exactly
+    when `out` is not what it remembered (nothing remembered and nothing rendered counts as
+    unchanged); otherwise it writes nothing and remembers what it did. -/
+theorem ifchanged_prints_on_change (fuel id : Nat) (body : List Node) (σ σ1 : ES) (out : Bytes)
+    (hbody : (buffered (execNodes T cfg g fuel body)).run σ = .ok out σ1) :
+    (execNode T cfg g (fuel + 1) (.tagIfchanged id [] body none)).run σ =
+      if σ1.changedC.lookup id != some out && !((σ1.changedC.lookup id).isNone && out == []) then
+        .ok () { σ1 with out := σ1.out ++ out, changedC := (σ1.changedC.filter (·.1 != id)) ++ [(id, out)] }
+      else .ok () σ1 := by
+  unfold execNode
+  simp only [List.length_nil, beq_self_eq_true, if_true]
+  rw [run_bind_ok hbody]
+  simp only [EStateM.run, bind, EStateM.bind, get, getThe, MonadStateOf.get, EStateM.get]
+  by_cases h : (σ1.changedC.lookup id != some out && !((σ1.changedC.lookup id).isNone && out == [])) = true
+  · simp only [h, if_true, write, modify, modifyGet, MonadStateOf.modifyGet, EStateM.modifyGet, EStateM.bind]
+  · simp only [h, Bool.false_eq_true, if_false]
+    cases hl : (List.lookup id σ1.changedC).isSome <;> simp [hl, pure, EStateM.pure]
+
 /-! ### branching -/
+
+/-- **`firstof` prints the first true argument**: the arguments are evaluated from the left; the
+    first whose value is true is printed (and nothing after it is evaluated), a false one is
+    skipped and the search goes on with the rest; with no argument left nothing is printed. -/
+theorem firstof_prints_first_true (fuel : Nat) (a : Expr) (rest : List Expr) (σ σ' : ES) (v : V)
+    (h : (eval T cfg g fuel a).run σ = .ok v σ') :
+    (v.v.isTrue = true → (firstof T cfg g (fuel + 1) (a :: rest)).run σ =
+      ((cur >>= fun fr => write (firstofText (filterApplied b!"safe" a) fr.autoescape v)) : XM Unit).run σ') ∧
+    (v.v.isTrue = false → (firstof T cfg g (fuel + 1) (a :: rest)).run σ = (firstof T cfg g fuel rest).run σ') ∧
+    (firstof T cfg g (fuel + 1) []).run σ = .ok () σ := by
+  refine ⟨?_, ?_, ?_⟩
+  · intro hv; rw [firstof, run_bind_ok h]; simp [hv]
+  · intro hv; rw [firstof, run_bind_ok h]; simp [hv]
+  · rw [firstof]
+    · rfl
+    · intro hh; cases hh
+
+
 
 /-- `ifequal a b T else E` and `ifnotequal a b E else T` are the same node. -/
 theorem ifequal_complement (fuel : Nat) (a c : Expr) (t e : List Node) :
